@@ -74,7 +74,11 @@ func stopProxy(sp *simProxy) bool {
 
 func fragsFor(r *rng, n int) []int {
 	var fr []int
-	switch r.intn(4) {
+	mode := r.intn(4)
+	if n > 200000 && (mode == 1 || mode == 3) {
+		mode = 2 // megabytes in pieces of a few bytes take longer to write than the reply is waited for
+	}
+	switch mode {
 	case 0:
 		return nil
 	case 1:
